@@ -201,6 +201,8 @@ def extra_checks(pid, tier, seed):
     """Checks outside the lockstep machinery.  C11: several pools of both classes in one loop
     number their tasks independently and unnamed pools get distinct names (the model has a single
     pool; this clause is exercised directly on the implementation)."""
+    if pid in ("C04", "C12"):
+        return _percall_failures(pid, tier, seed)
     if pid != "C11":
         return []
     import asyncio
@@ -292,6 +294,73 @@ def extra_checks(pid, tier, seed):
         asyncio.run(go())
         if fails:
             break
+    return fails
+
+
+def _percall_failures(pid, tier, seed):
+    """C04 / C12, outside the model's label domain: in the model a request's call of `func` raises
+    for *every* invocation or for none (`bad`); here the call fails for an arbitrary subset of the
+    invocation indices of one apply()/start() request.  Direct check on the implementation: every
+    invocation whose call does not raise becomes exactly one task (in the returned group), the
+    failing ones are skipped, whatever the pool size."""
+    import asyncio
+    import inspect
+    import lockstep
+    lockstep._init_worker()
+    from asyncio_taskpool.pool import SimpleTaskPool, TaskPool
+    fails = []
+    rng = random.Random(seed * 31 + int(pid[1:]))
+
+    async def one(round_no):
+        num = rng.randint(1, 6)
+        pattern = [rng.random() < 0.4 for _ in range(num)]
+        if round_no % 3 == 0:
+            pattern[0] = True           # the very first call of the request fails
+        size = rng.choice([1, 2, 3, None])
+        simple = rng.random() < 0.5
+        calls, ran = [], []
+
+        async def body(i):
+            ran.append(i)
+            await asyncio.sleep(0)
+
+        def func(*a, **kw):
+            i = len(calls)
+            calls.append(i)
+            if i < len(pattern) and pattern[i]:
+                raise RuntimeError(f"call {i} fails")
+            return body(i)
+        inspect.markcoroutinefunction(func)
+        func.__name__ = "func"
+        kw = {} if size is None else {"pool_size": size}
+        if simple:
+            pool = SimpleTaskPool(func, **kw)
+            g = pool.start(num)
+        else:
+            pool = TaskPool(**kw)
+            g = pool.apply(func, num=num)
+        for _ in range(4 * num + 8):
+            await asyncio.sleep(0)
+        want = [i for i in range(num) if not pattern[i]]
+        try:
+            ids = sorted(pool.get_group_ids(g))
+        except Exception as e:     # noqa: BLE001
+            ids = repr(e)
+        await pool.gather_and_close()
+        if calls != list(range(num)) or sorted(ran) != want or ids != list(range(len(want))):
+            fails.append({"what": "apply/start with a call that raises for some invocations only: "
+                                  "the other invocations must each become exactly one task",
+                          "pool": "SimpleTaskPool.start" if simple else "TaskPool.apply",
+                          "num": num, "failing_calls": [i for i in range(num) if pattern[i]],
+                          "pool_size": size, "calls_made": calls, "invocations_run": sorted(ran),
+                          "expected_run": want, "group_ids": ids})
+
+    async def go():
+        for r in range(60 if tier == "quick" else 600):
+            await one(r)
+            if fails:
+                break
+    asyncio.run(go())
     return fails
 
 
